@@ -646,6 +646,45 @@ func TestLifecycleHistoriesRapid(t *testing.T) {
 						}
 					}
 				}
+				// an owner entry a lifecycler registers must be one the rings that resolve owners map back to
+				// its instance and its partition (single- and multi-partition ownership use different ids)
+				for id, o := range out.Owners {
+					if _, had := in.Owners[id]; had || li < 0 {
+						continue
+					}
+					inst := fmt.Sprintf("inst-%d", li)
+					pd, ok := out.Partitions[o.OwnedPartition]
+					if o.OwnedPartition != ownPart || !ok {
+						failure = fmt.Sprintf("%s registered owner %q of partition %d (exists=%v); its own partition is %d", r.Writer, id, o.OwnedPartition, ok, ownPart)
+						return
+					}
+					one := ring.NewPartitionRingDesc()
+					one.Partitions[ownPart] = pd
+					one.Owners[id] = o
+					pr, err := ring.NewPartitionRing(*one)
+					if err != nil {
+						failure = fmt.Sprintf("NewPartitionRing(%v): %v", one, err)
+						return
+					}
+					insts := fakeInstances{inst: ring.InstanceDesc{Id: inst, Addr: inst, Zone: "z", State: ring.ACTIVE, Timestamp: time.Now().Unix()}}
+					var got []string
+					if cfgs[li].multi {
+						rs, err := ring.NewMultiPartitionInstanceRing(staticReader{pr}, insts, time.Hour).GetReplicationSetForPartitionAndOperation(ownPart, ring.Reporting)
+						if err == nil {
+							got = rs.GetIDs()
+						}
+					} else {
+						sets, err := ring.NewPartitionInstanceRing(staticReader{pr}, insts, time.Hour).GetReplicationSetsForOperation(ring.Reporting)
+						if err == nil && len(sets) == 1 {
+							got = sets[0].GetIDs()
+						}
+					}
+					vx.Class("owner_registrations_resolved_through_the_instance_rings", 1)
+					if len(got) != 1 || got[0] != inst {
+						failure = fmt.Sprintf("%s (multi-partition ownership %v) registered owner %q of partition %d, which the partition instance ring resolves to %v instead of [%s]", r.Writer, cfgs[li].multi, id, ownPart, got, inst)
+						return
+					}
+				}
 				for pid, after := range out.Partitions {
 					if _, ok := in.Partitions[pid]; !ok {
 						if after.State != ring.PartitionPending {
